@@ -3,7 +3,9 @@
    run by the certificate checker below, whose soundness (and what it implies) is proved here once
    for all circuits; the LearnSPN task queue itself is covered by Properties/C05.v. *)
 From Coq Require Import List Arith ZArith Ring Bool.
-From DV Require Import Model.Core Model.Clt Model.Leaves Model.Check Proofs.CoreFacts Proofs.CheckFacts.
+From Coq Require Import Permutation.
+From DV Require Import Model.Core Model.Clt Model.Leaves Model.Check Model.LearnSpn
+  Proofs.CoreFacts Proofs.CheckFacts Proofs.LearnSpnFacts Proofs.LearnSpnScope.
 Import ListNotations.
 
 Section C04.
@@ -34,5 +36,33 @@ Section C04.
   Qed.
 End C04.
 
+(* ---- LearnSPN itself (the task-queue machine of Model/LearnSpn.v, every data-dependent decision an
+   oracle answer): for EVERY answer list the accounting invariant holds at every reachable state ... *)
+Theorem C04_learnspn_accounted : forall min_rows min_cols rows cols answers,
+    accounted (run min_rows min_cols answers (init rows cols)).
+Proof. exact run_accounted. Qed.
+
+(* ... so when learn_spn returns, every sum's children carry the sum's own scope (smoothness) and its
+   row groups, every product's children carry its rows and its column groups, in order *)
+Theorem C04_learnspn_structure : forall min_rows min_cols rows cols answers,
+    let s := run min_rows min_cols answers (init rows cols) in
+    queue s = [] -> forall p e, p < length (arena s) -> expected (nth p (arena s) dummy_anode) = Some e ->
+    kid_info (arena s) (nth p (arena s) dummy_anode) = e.
+Proof. exact run_structure. Qed.
+
+(* ... and for well-formed answers (one flag per column, one label per split item) the row groups of
+   every sum partition its rows (positive weights summing to one) and the column groups of every
+   product partition its scope (decomposability) *)
+Theorem C04_learnspn_partitions : forall min_rows min_cols s ans, wfs s ->
+    (match queue s with t :: _ => answer_wf min_rows min_cols t ans | [] => True end) ->
+    Forall parts_ok (arena s) -> Forall parts_ok (arena (step min_rows min_cols s ans)).
+Proof. exact step_parts. Qed.
+Theorem C04_group_partitions : forall xs ls, length ls = length xs -> Permutation (concat (group xs ls)) xs.
+Proof. exact group_perm. Qed.
+
 Print Assumptions C04_checker_sound.
+Print Assumptions C04_learnspn_accounted.
+Print Assumptions C04_learnspn_structure.
+Print Assumptions C04_learnspn_partitions.
+Print Assumptions C04_group_partitions.
 Print Assumptions C04_normalised.
